@@ -49,8 +49,18 @@ struct ares_htable {
   ares_llist_t            **buckets;
 };
 
+#ifdef CARES_VERIF_SIM
+/* Verification hook (off by default): the deterministic simulator supplies the
+ * hash seed so that bucket iteration order does not depend on ASLR. */
+extern unsigned int cares_verif_sim_htable_seed(void);
+#endif
+
 static unsigned int ares_htable_generate_seed(ares_htable_t *htable)
 {
+#ifdef CARES_VERIF_SIM
+  (void)htable;
+  return cares_verif_sim_htable_seed();
+#endif
 #ifdef FUZZING_BUILD_MODE_UNSAFE_FOR_PRODUCTION
   /* Seed needs to be static for fuzzing */
   return 0;
